@@ -188,9 +188,10 @@ def run_main(cr, argv):
     seen = {}
     orig = cr.run_games
 
-    def spy(d):
+    def spy(*a, **k):       # signature-transparent: the driver may pass the dictionary positionally or by keyword
+        d = a[0] if a else next(iter(k.values()))
         seen['arg'] = copy.deepcopy(d)
-        seen['res'] = orig(d)
+        seen['res'] = orig(*a, **k)
         return seen['res']
     cr.run_games = spy
     old_argv = sys.argv
